@@ -7,6 +7,7 @@ import (
 	"bufio"
 	"fmt"
 	"go/ast"
+	"go/token"
 	"go/types"
 	"io"
 	"os"
@@ -76,6 +77,21 @@ One can reverse a captured panic stack trace as follows:
 		}
 		for i, file := range files {
 			goFile := lpkg.CompiledGoFiles[i]
+			// Package-level variables are obfuscated and listed by "garble map",
+			// so their names must be reversible too.
+			for _, decl := range file.Decls {
+				decl, ok := decl.(*ast.GenDecl)
+				if !ok || decl.Tok != token.VAR {
+					continue
+				}
+				for _, spec := range decl.Specs {
+					for _, name := range spec.(*ast.ValueSpec).Names {
+						if name.Name != "_" {
+							addHashedWithPackage(name.Name)
+						}
+					}
+				}
+			}
 			for node := range ast.Preorder(file) {
 				switch node := node.(type) {
 
